@@ -77,12 +77,12 @@ META = {
   text="Structure-aware random generation of tier1 and tier2 requests with every field of every module free, plus valid generated graphs with one field broken, run through the server's sequence (ValidateTier1/2Request, exec.NewOutputModuleGraph incl. hashing and staging, BuildRequestDetails, BuildTier1RequestPlan): every call must return without panic, within 10 s, allocating < 256 MiB.",
   design_ref="DESIGN.md section 3, C17",
   note="Requests are encoded to the wire and decoded again, so only shapes a client can actually send are judged; the tier2 stage index is kept in range (not in the property's list).",
-  technique="rapid structure-aware random generation with crash/hang/allocation oracle"),
+  technique="rapid structure-aware random generation with crash/hang/allocation oracle; thorough tier adds native coverage-guided fuzzing of the wire bytes (FuzzC17Request)"),
  "C18": dict(
   text="Differential round-trip random testing of the hand-written codecs against google.golang.org/protobuf: Map.MarshalFast -> proto.Unmarshal(Array), proto.Marshal(Array) -> Map.UnmarshalFast, fast round trip; every store marshaller reads back what it wrote; VTproto/ProtoingFast bytes decode with proto.Unmarshal and proto.Marshal bytes decode with the VTproto decoder; reported size == sum(len k+len v).",
   design_ref="DESIGN.md section 3, C18",
   note="Cross-decoding with the standard codec is only required for valid UTF-8 strings (the standard codec rejects others by design); raw binary keys are checked on the self round trips of VTproto and Binary.",
-  technique="rapid random generation, differential against the standard protobuf codec + round trips"),
+  technique="rapid random generation, differential against the standard protobuf codec + round trips; thorough tier adds native coverage-guided fuzzing (FuzzC18Outputs, FuzzC18Stores: bytes -> standard decode -> standard encode -> hand-written decoders)"),
  "C12": dict(
   text="Bounded-exhaustive enumeration of a boundary-biased sub-grid of the quantifier (mode x segment size x store/output initial blocks, start, stop, final block around segment boundaries) plus rapid generation over the full grid and over cursor shapes with a fake fork resolver; pipeline.BuildRequestDetails and plan.BuildTier1RequestPlan are called as Tier1Service.blocks calls them and judged by an oracle restating the property (stores built to the hand-off, cached outputs read for [start,min(hand-off,stop)), linear [hand-off,stop), gate, no gap/overlap, whole segments, impossible requests rejected, forked cursor -> undo for the junction and restart after it).",
   design_ref="DESIGN.md section 3, C12",
